@@ -12,20 +12,21 @@
     Parser, second part (family lef_parse2; Gen/KernelsLefRead2Gen.v, unit "lefr2"; reading Lef/KernelsInstLefRead2.v: the helpers of the first
     part external = the model's functions; proofs Lef/KernelsTieLefRead2_proofs.v): the statement parsers `parse_units`, `parse_size`,
     `parse_symmetries`, `parse_macro_class`, `parse_site_def`, `parse_property`, `parse_pin_direction`, the geometry parsers (`parse_geometry_mask`,
-    `parse_iterate`, `parse_step_pattern`, `parse_point_list`, `parse_geometry_tail`, `parse_geometry`) and `expect_and_get_str`, `get_name`,
+    `parse_iterate`, `parse_step_pattern`, `parse_point_list`, `parse_geometry_tail`, `parse_geometry`), `parse_bus_bit_chars`, `parse_divider_char` and `expect_and_get_str`, `get_name`,
     `expect_ident` are the model's functions; where the model carries a variant flag the tie is stated for the reader as it is now
     ([RI2.cfr_now]).
     Parser, third part (family lef_parse3; same generated file and reading; proofs Lef/KernelsTieLefRead3_proofs.v): `parse_layer_geometries` (both
     loops, the builder), `parse_via_shape`, `parse_via_layer_geometries`, `parse_obstructions`, `parse_port`, `parse_property_definition_tail`,
     `parse_property_definitions`.
     Parser, the big loops (family lef_parse_lib; proofs Lef/KernelsTieLefReadL_proofs.v): the whole of `parse_pin` ([RI2.cfr_now_props]: the
-    properties reach the builder); family lef_parse_macro (proofs Lef/KernelsTieLefReadM_proofs.v): the whole of `parse_macro`. *)
+    properties reach the builder); family lef_parse_macro (proofs Lef/KernelsTieLefReadM_proofs.v): the whole of `parse_macro`; family lef_parse_via (proofs
+    Lef/KernelsTieLefReadV_proofs.v): the whole of `parse_via`. *)
 From Coq Require Import ZArith Bool List String.
 From L21 Require Import Lef.LefDec Lef.LefData Lef.LefLex Lef.LefParse Lef.LefWrite.
 From L21 Require Import Base.KernelOps Base.KernelOpsX Base.Outcome Gen.KernelsLefWriteGen Lef.KernelsInstLefWrite.
 From L21 Require Lef.KernelsTieLefWrite_proofs Lef.KernelsTieLefWriteL_proofs.
 From L21 Require Lef.KernelsInstLefRead Lef.KernelsTieLefRead_proofs.
-From L21 Require Lef.KernelsInstLefRead2 Lef.KernelsTieLefRead2_proofs Lef.KernelsTieLefRead3_proofs Lef.KernelsTieLefReadL_proofs Lef.KernelsTieLefReadM_proofs.
+From L21 Require Lef.KernelsInstLefRead2 Lef.KernelsTieLefRead2_proofs Lef.KernelsTieLefRead3_proofs Lef.KernelsTieLefReadL_proofs Lef.KernelsTieLefReadM_proofs Lef.KernelsTieLefReadV_proofs.
 Import ListNotations.
 Local Open Scope Z_scope.
 Module W := Lef.KernelsTieLefWrite_proofs.
@@ -37,6 +38,7 @@ Module R2 := Lef.KernelsTieLefRead2_proofs.
 Module R3 := Lef.KernelsTieLefRead3_proofs.
 Module RL := Lef.KernelsTieLefReadL_proofs.
 Module RM := Lef.KernelsTieLefReadM_proofs.
+Module RV := Lef.KernelsTieLefReadV_proofs.
 
 Theorem Ktie_format_mask : forall m s, g_format_mask m s = Ok (format_mask m, s).
 Proof. exact W.tie_format_mask. Qed.
@@ -143,6 +145,10 @@ Theorem Ktie_parse_step_pattern : forall s, RI.backl RI2.Mstep (RI2.g_parse_step
 Proof. exact (R2.tie_parse_step_pattern cf src). Qed.
 Theorem Ktie_parse_geometry_tail : forall it sh s, RI.backl RI2.Mgeometry (RI2.g_parse_geometry_tail cf src it sh s) = RI.lunit (parse_geometry_tail cf src it (RI2.Mshape sh) s).
 Proof. exact (R2.tie_parse_geometry_tail cf src). Qed.
+Theorem Ktie_parse_bus_bit_chars : forall s, RI2.g_parse_bus_bit_chars cf src s = RI.lunit (parse_bus_bit_chars cf src s).
+Proof. exact (R2.tie_parse_bus_bit_chars cf src). Qed.
+Theorem Ktie_parse_divider_char : forall s, RI2.g_parse_divider_char cf src s = RI.lunit (parse_divider_char cf src s).
+Proof. exact (R2.tie_parse_divider_char cf src). Qed.
 Section ReaderNow.
 Hypothesis Hcf : RI2.cfr_now cf.
 Theorem Ktie_parse_point_list : forall s, RI.backl (map RI2.Mpoint) (RI2.g_parse_point_list cf src s) = RI.lunit (parse_point_list cf src s).
@@ -151,6 +157,8 @@ Theorem Ktie_parse_geometry : forall s, RI.backl RI2.Mgeometry (RI2.g_parse_geom
 Proof. exact (R2.tie_parse_geometry cf src Hcf). Qed.
 End ReaderNow.
 End Parser2.
+Check Ktie_parse_bus_bit_chars : forall cf src, forall s, RI2.g_parse_bus_bit_chars cf src s = RI.lunit (parse_bus_bit_chars cf src s).
+Check Ktie_parse_divider_char : forall cf src, forall s, RI2.g_parse_divider_char cf src s = RI.lunit (parse_divider_char cf src s).
 Check Ktie_parse_size : forall cf src, forall s, RI2.g_parse_size cf src s = RI.lunit (parse_size cf src s).
 Check Ktie_parse_units : forall cf src, forall s, RI.backl RI2.Munits (RI2.g_parse_units cf src s) = RI.lunit (parse_units cf src s).
 Check Ktie_parse_symmetries : forall cf src, forall s, RI.backl (map RI2.MLefSymmetry) (RI2.g_parse_symmetries cf src s) = RI.lunit (parse_symmetries cf src s).
@@ -187,7 +195,10 @@ Theorem Ktie_parse_obstructions : forall s, RI.backl (map RI2.Mlayer_geoms) (RI2
 Proof. exact (R3.tie_parse_obstructions cf src Hcf). Qed.
 Theorem Ktie_parse_port : forall s, RI.backl RI2.Mport (RI2.g_parse_port cf src s) = RI.lunit (parse_port cf src s).
 Proof. exact (R3.tie_parse_port cf src Hcf). Qed.
+Theorem Ktie_parse_via : forall s, RI.backl RI2.Mvia_def (RI2.g_parse_via cf src s) = RI.lunit (parse_via cf src s).
+Proof. exact (RV.tie_parse_via cf src Hcf). Qed.
 End Parser3.
+Check Ktie_parse_via : forall cf src, RI2.cfr_now cf -> forall s, RI.backl RI2.Mvia_def (RI2.g_parse_via cf src s) = RI.lunit (parse_via cf src s).
 Check Ktie_parse_via_shape : forall cf src, RI2.cfr_now cf -> forall s, RI.backl RI2.Mvia_shape (RI2.g_parse_via_shape cf src s) = RI.lunit (parse_via_shape cf src s).
 Check Ktie_parse_via_layer_geometries : forall cf src, RI2.cfr_now cf -> forall s, RI.backl RI2.Mvia_layer_geoms (RI2.g_parse_via_layer_geometries cf src s) = RI.lunit (parse_via_layer_geometries cf src s).
 Check Ktie_parse_property_definition_tail : forall cf src, forall s, RI.backl (R3.Mtail) (RI2.g_parse_property_definition_tail cf src s) = RI.lunit (parse_property_definition_tail cf src s).
@@ -263,3 +274,6 @@ Print Assumptions Ktie_parse_obstructions.
 Print Assumptions Ktie_parse_port.
 Print Assumptions Ktie_parse_pin.
 Print Assumptions Ktie_parse_macro.
+Print Assumptions Ktie_parse_bus_bit_chars.
+Print Assumptions Ktie_parse_divider_char.
+Print Assumptions Ktie_parse_via.
